@@ -198,6 +198,8 @@ def run(ck, tier):
     ck.guard(r1_tables, ck, cx)
     ck.guard(r2_r3_layouts, ck, cx)
     ck.guard(r4_dispatch, ck, cx)
+    from .c02 import r5_no_shared_default_state
+    ck.guard(r5_no_shared_default_state, ck, cx, 'R5')
     ck.assume('the arithmetic inside pack_bitstring / unpack_bitstring (LSB-first packing) and struct itself are in the trusted base; the rules prove every bit field goes through them')
     ck.assume('value ranges (e.g. addresses above 65535 raising struct.error) are not decided')
     return cx.idx
